@@ -64,7 +64,10 @@ def run(prop, tier, seed, scratch, replay=None):
     res.add_report(rep)
     if rep["traces"] != ncases:
         res.errors.append("driver ran %d of %d cases" % (rep["traces"], ncases))
+    st = vlib.binding_selftest(scratch, drv, lambda i, o: ["-in", i, "-out", o, "-workers", 4], cases, ["events", "err", "disk"],
+                               where=lambda c: len((c.get("exp") or {}).get("events") or []) >= 1)
     res.coverage = {
+        "binding_selftest": st,
         "states": states, "transitions": transitions,
         "traces_validated_against_impl": rep["traces"],
         "evaluations": rep["checks"], "distinct_nontrivial": rep["distinct_nontrivial"],
